@@ -1,12 +1,13 @@
 #!/bin/bash
-# usage: seed_lemma.sh <seed-id> <prop> <lemma>   — apply seeded patch, run one lemma of a property, revert
+# usage: seed_lemma.sh <seed-id> <prop> <lemma>   - run one lemma of a property against a seeded change,
+# in a scratch worktree of /repo's HEAD (so /repo itself is never modified)
 S=$1; PROP=$2; L=$3
 P=/verif/seeded/$S/patch.diff
-cd /repo || exit 2
-if [ -n "$(git status --porcelain --untracked-files=no | grep -v testdata/enwik7)" ]; then echo "/repo not clean"; exit 2; fi
-git apply $P || { echo "$S: patch does not apply"; exit 2; }
-trap 'git -C /repo checkout -- . ' EXIT
-out=$(cd /verif && timeout 1800 ./bin/vcheck run --prop $PROP --lemma $L 2>&1)
+WT=/tmp/wtl-$$
+git -C /repo worktree add -q --detach $WT HEAD || exit 2
+trap 'git -C /repo worktree remove --force $WT >/dev/null 2>&1' EXIT
+git -C $WT apply $P || git -C $WT apply --3way $P || { echo "$S: patch does not apply"; exit 2; }
+out=$(cd /verif && timeout 1800 ./bin/vcheck run --repo $WT --prop $PROP --lemma $L 2>&1)
 rc=$?
 echo "$S vs $PROP/$L: exit=$rc"
-echo "$out" | grep -E '^(VIOLATION|INCONCLUSIVE|STALE|ENGINE|VACUOUS)' | cut -c1-300 | head -5
+echo "$out" | grep -E '^(VIOLATION|INCONCLUSIVE|STALE|ENGINE|VACUOUS)' | sed "s#$WT#/repo#g" | cut -c1-300 | head -5
